@@ -16,7 +16,9 @@ const stream = "inbound"
 type TableDef struct {
 	Name  string `json:"name"`
 	SQL   string `json:"sql"`
-	Where string `json:"where,omitempty"` // "" or the value the d dimension must have
+	Where string `json:"where,omitempty"` // "" or the value the WHERE dimension must have
+	Dim   string `json:"dim,omitempty"`   // the WHERE dimension: "" = d, or "g"
+	ResS  int    `json:"res_s,omitempty"` // resolution in seconds (0: 1 s; t2 without it: 5 s)
 }
 
 // Point is one generated insert. L: 0 scalar value, >0 array value of that length,
@@ -38,7 +40,22 @@ type Step struct {
 	Ms    int    `json:"ms,omitempty"`
 }
 
+// DBCfg is the part of zenodb.DBOpts that is legal for a standalone database and can
+// influence recovery; every field is varied by the generator and is constant over the
+// restarts of one case.  Deliberately NOT varied: WALSyncInterval (C02 is stated for sync on
+// every write: with an interval the acknowledged tail sits in a user-space buffer), the
+// cluster options (Passthrough, NumPartitions, Partition, Follow: C10/C12), options that only
+// touch queries (IterationCoalesceInterval, IterationConcurrency, ClusterQuery*).
+type DBCfg struct {
+	ID             int     `json:"id,omitempty"`               // DBOpts.ID (the server's -id flag)
+	MaxWALSize     int     `json:"max_wal_size,omitempty"`     // 0: default (10 MB); always far above a script's WAL
+	MaxMemoryRatio float64 `json:"max_memory_ratio,omitempty"` // > 0: sorted flushes (emsort) and memory capping
+	RealClock      bool    `json:"real_clock,omitempty"`       // VirtualTime off
+	Backlog        int     `json:"wal_backlog,omitempty"`      // MaxWALMemoryBacklog (ignored by wal when syncing every write)
+}
+
 type Script struct {
+	DB           DBCfg      `json:"db"`
 	Tables       []TableDef `json:"tables"`
 	Steps        []Step     `json:"steps"`
 	Base         int        `json:"base"`           // digit base of the value encoding
@@ -98,7 +115,18 @@ func (p *Point) apps(fanout int) int {
 	}
 }
 
-func (p *Point) skippedBy(t TableDef) bool { return t.Where != "" && p.D != t.Where }
+func (p *Point) skippedBy(t TableDef) bool {
+	if t.Where == "" {
+		return false
+	}
+	if t.Dim == "g" {
+		return p.G != t.Where
+	}
+	return p.D != t.Where
+}
+
+// t3 filters on the other dimension, so the tables of one stream skip different entries.
+var tableT3 = TableDef{Name: "t3", SQL: "SELECT SUM(v) AS v FROM inbound WHERE g = 'y' GROUP BY d, period(2s)", Where: "y", Dim: "g", ResS: 2}
 
 func genPoint(r *hk.Rng, maxL int) *Point {
 	p := &Point{G: hk.Pick(r, []string{"x", "x", "y"}), D: hk.Pick(r, []string{"p", "p", "p", "q", "q"}), TS: r.Intn(6)}
@@ -142,8 +170,42 @@ func capacity(base int) int {
 	return 52 / bits
 }
 
+// coverCfgs is a small covering set of configurations: the first scripts of every run (the
+// whole quick tier) use one each, so every field takes a non-default value next to a restart.
+var coverCfgs = []DBCfg{
+	{},
+	{ID: 7, MaxWALSize: 1 << 20},
+	{ID: 1, RealClock: true},
+	{ID: 1 << 20, MaxMemoryRatio: 0.9},
+	{RealClock: true, Backlog: 16, MaxWALSize: 64 << 20},
+	{ID: 7, MaxMemoryRatio: 0.9, RealClock: true},
+}
+
+// cfgFor is the configuration of script number sidx: the covering set first, random afterwards.
+func cfgFor(sidx uint64, r *hk.Rng) DBCfg {
+	if sidx < uint64(len(coverCfgs)) {
+		return coverCfgs[sidx]
+	}
+	return genDBCfg(r)
+}
+
+// genDBCfg draws the configuration of the database under test.
+func genDBCfg(r *hk.Rng) DBCfg {
+	return DBCfg{
+		ID:             hk.Pick(r, []int{0, 0, 1, 7, 1 << 20}),
+		MaxWALSize:     hk.Pick(r, []int{0, 0, 1 << 20, 64 << 20}),
+		MaxMemoryRatio: hk.Pick(r, []float64{0, 0, 0, 0.9}),
+		RealClock:      r.Chance(1, 4),
+		Backlog:        hk.Pick(r, []int{0, 0, 16}),
+	}
+}
+
 func genScript(r *hk.Rng, maxOps int, fanout int, rounds int) Script {
 	sc := Script{Tables: tableDefs(r.Chance(2, 3))}
+	sc.DB = genDBCfg(hk.Derive(r.Next(), 77))
+	if r.Chance(1, 4) {
+		sc.Tables = append(sc.Tables, tableT3)
+	}
 	if r.Chance(1, 5) {
 		sc.TimedFlushMs = r.Range(2, 8)
 	}
